@@ -3,7 +3,7 @@
 
 translate:      harness/translate_attr.py -> Generated/AttrConv.lean (regexes, converter shapes, tuples),
                 Generated/AttrSchema.lean (schema pattern facets, datatypes), Generated/AttrTable.lean (dict + occurrences)
-proof:          lean/OdfModel/Props/C15.lean (validated_full, idempotent_partial, pattern_same_*, pattern_incl_*,
+proof:          lean/OdfModel/Props/C15.lean (validated_full, idempotent, pattern_same_*, pattern_incl_*,
                 binding_compatible over every attribute occurrence of the schema, finding_* counter-examples)
 correspondence: every cnv_* function, every pattern_*.match, every schema pattern facet, the lookup order of
                 AttrConverters.convert and Element.setAttrNS/getAttrNS  vs  drv_attr
